@@ -192,7 +192,7 @@ class Contract:
 
     def __init__(self, fn, real, requires=(), ensures=(), assigns=None, build=None, unwind=1, backends=('sat',),
                  replace=(), kind='F', bounded=None, timeout=300, sig=None, tier='quick', uses=(), flags=(),
-                 poison_flags=False, note=''):
+                 poison_flags=False, note='', uf_float=()):
         self.fn, self.real = fn, real
         self.requires, self.ensures = list(requires), list(ensures)
         self.assigns = assigns
@@ -203,6 +203,7 @@ class Contract:
         self.uses = list(uses)   # other extracted functions referenced from clauses (relational)
         self.flags = list(flags)
         self.poison_flags = poison_flags
+        self.uf_float = tuple(uf_float)
         self.note = note
 
 
